@@ -24,7 +24,6 @@ use std::path::Path;
 use std::path::PathBuf;
 use std::rc::Rc;
 use std::sync::LazyLock;
-use chrono::{Datelike, Local, Timelike};
 use mp3_metadata::MP3Metadata;
 use regex::Regex;
 use sha1::Digest;
@@ -133,20 +132,8 @@ where
     where
         T: Ord,
     {
-        let default = Local::now()
-            .naive_local()
-            .with_year(1970)
-            .unwrap()
-            .with_month(1)
-            .unwrap()
-            .with_day(1)
-            .unwrap()
-            .with_hour(0)
-            .unwrap()
-            .with_minute(0)
-            .unwrap()
-            .with_second(0)
-            .unwrap();
+        // the start of the epoch, built without the clock: moving today's date to 1970 has no result on 29 February
+        let default = chrono::NaiveDateTime::default();
         let a = parse_datetime(&self.values[i].to_string())
             .unwrap_or((default, default))
             .0;
